@@ -88,6 +88,7 @@ class Report:
         self.extra = {}
         self.distinct = set()
         self.notes = []
+        self.cross = {}
 
     def absorb(self, res):
         """merge a job result dict produced by `job_result`"""
@@ -101,6 +102,8 @@ class Report:
         self.unsat += st.get('unsat', 0); self.unknown += st.get('unknown', 0); self.solver_s += st.get('solver_s', 0.0)
         self.steps += st.get('steps', 0)
         self.fns.update(st.get('fns', {})); self.models |= set(st.get('models', []))
+        for x in st.get('xresults', []):
+            self.cross[x] = self.cross.get(x, 0) + 1
         self.obligations += res.get('obligations', 0)
         for v in res.get('violations', []):
             self.violations.append(v)
@@ -137,7 +140,8 @@ class Report:
             'functions_encoded': dict(sorted(self.fns.items())),
             'library_models_used': sorted(self.models),
             'solver': {'engine': 'z3 (python API, incremental per path)', 'queries': self.queries, 'sat': self.sat, 'unsat': self.unsat,
-                       'unknown': self.unknown, 'solver_wall_s': round(self.solver_s, 2)},
+                       'unknown': self.unknown, 'solver_wall_s': round(self.solver_s, 2),
+                       'cross_checked_with_cvc5': dict(self.cross)},
             'mir_steps_executed': self.steps,
             'obligations_discharged': self.obligations,
             'jobs': self.jobs,
@@ -163,7 +167,7 @@ class Report:
 
 
 def stats_dict(st):
-    return {'paths': st.paths, 'queries': st.queries, 'sat': st.sat, 'unsat': st.unsat, 'unknown': st.unknown,
+    return {'xresults': list(getattr(st, 'xresults', [])), 'paths': st.paths, 'queries': st.queries, 'sat': st.sat, 'unsat': st.unsat, 'unknown': st.unknown,
             'solver_s': st.solver_s, 'steps': st.steps, 'fns': dict(st.fns), 'models': sorted(st.models)}
 
 
@@ -211,6 +215,8 @@ def finish(rep, level='model_checking', explanation=''):
             print('ENCODING-MISMATCH (not a violation): solver witness did not reproduce natively: %s' % (v.get('summary', ''),))
         rep.inconclusive.append('%d solver witnesses did not reproduce on the native build (encoding/model bug)' % len(unrepro))
         code = 2
+    if rep.cross.get('disagree'):
+        rep.inconclusive.append('cvc5 disagreed with z3 on %d re-checked queries' % rep.cross['disagree'])
     path = rep.write(level, explanation)
     inc = len(rep.inconclusive)
     print('%s %s: paths=%d queries=%d obligations=%d violations=%d known=%d inconclusive=%d wall=%.1fs evidence=%s' % (
